@@ -845,7 +845,9 @@ class Canonicaliser:
         body = [substitute_stmt(clone(b), mapping) for b in h.body
                 if not (isinstance(b, ast.Expr) and isinstance(b.value, ast.Constant) and isinstance(b.value.value, str))]
         if mode == "return":
-            stmts = body
+            # `return helper(…)`: the helper's own returns are the caller's; a helper that falls off its end returns None
+            # there — the caller must not continue with what follows the call
+            stmts = body if body and isinstance(body[-1], (ast.Return, ast.Raise)) else body + [ast.Return(value=None)]
         else:
             if mode == "assign":
                 def on_return(v):
